@@ -1,0 +1,36 @@
+//! Verification hooks. Only compiled with the cargo feature `verif_hooks`.
+//! Re-exports crate-private functions for an external verification harness.
+
+use std::collections::BTreeSet;
+
+use crate::parser::recovery::{EditOp, Recovery};
+use crate::{TerminalIndex, Trans};
+
+/// Edit operations as numbers: 0 keep, 1 insert, 2 delete, 3 replace
+pub fn levenshtein_distance(act: &[TerminalIndex], exp: &[TerminalIndex]) -> (usize, Vec<u8>) {
+    let (d, ops) = Recovery::levenshtein_distance(act, exp);
+    (
+        d,
+        ops.into_iter()
+            .map(|o| match o {
+                EditOp::Keep => 0,
+                EditOp::Insert => 1,
+                EditOp::Delete => 2,
+                EditOp::Replace => 3,
+            })
+            .collect(),
+    )
+}
+
+/// See `Recovery::minimal_token_difference`
+pub fn minimal_token_difference(
+    scanned_token_types: &[TerminalIndex],
+    possible_terminal_strings: &mut BTreeSet<Vec<TerminalIndex>>,
+) -> Option<Vec<TerminalIndex>> {
+    Recovery::minimal_token_difference(scanned_token_types, possible_terminal_strings)
+}
+
+/// See `Recovery::restore_terminal_strings`
+pub fn restore_terminal_strings(transitions: &[Trans], prod0: i32) -> BTreeSet<Vec<TerminalIndex>> {
+    Recovery::restore_terminal_strings(transitions, prod0 as _)
+}
